@@ -11,6 +11,8 @@
 (*                                                                         *)
 (*   Clone, IntoOwned, DisplayNew, FromStr, TryFrom :  abs' = abs          *)
 (*   AnyOfText, AnyOfCompiled, AnyOfNested          :  abs' = Collapse(abs)*)
+(*   AnyAgain (a combinator wrapped once more)      :  abs' = abs          *)
+(*   AnyMixEmpty (an empty combinator in front)     :  a new value         *)
 (* (a combinator exposes only the complete text of a match; depth, text,   *)
 (* root and exhaustiveness of a single pattern are unchanged).             *)
 (*                                                                         *)
@@ -33,9 +35,18 @@ Collapse(a) ==
   ELSE a
 
 Identity == {"clone", "into_owned", "display_new", "from_str", "try_from"}
-AnyOf == {"any_text", "any_compiled", "any_nested"}
+AnyOf == {"any_text", "any_compiled", "any_nested", "any_compiled_keep", "any_nested_keep"}
+(* a combinator passed through a combinator again, as a compiled value: the same value *)
+AnyAgain == {"any_again"}
+(* a combinator of nothing put in front of it: a new value (it also matches what the empty *)
+(* combinator matches); nothing is compared, the next steps start from it                   *)
+Reset == {"any_mix_empty"}
 
-Expected(ev, a) == IF ev \in Identity THEN a ELSE IF ev \in AnyOf THEN Collapse(a) ELSE a
+Expected(ev, a, logged) ==
+  IF ev \in Identity \cup AnyAgain THEN a
+  ELSE IF ev \in AnyOf THEN Collapse(a)
+  ELSE IF ev \in Reset THEN logged
+  ELSE a
 
 Init == /\ r \in 1..Len(Routes)
         /\ l = 1 /\ abs = Routes[r].events[1].abs /\ ok = TRUE
@@ -45,7 +56,7 @@ Step ==
   /\ l < Len(Routes[r].events)
   /\ LET e == Routes[r].events[l + 1] IN
      /\ abs' = e.abs
-     /\ ok' = (e.abs.kind \in {"glob", "any"} /\ e.abs = Expected(e.ev, abs))
+     /\ ok' = (e.abs.kind \in {"glob", "any"} /\ e.abs = Expected(e.ev, abs, e.abs))
   /\ l' = l + 1
   /\ UNCHANGED r
 
